@@ -45,6 +45,8 @@ def cases(tier, seed, phase):
             cfg = {'pipelining': rng.random() < 0.7, 'eightbit': rng.random() < 0.8, 'smtputf8': rng.random() < 0.7,
                    'size': rng.choice([None, None, 100000]), 'ehlo500': transport == 'smtp' and rng.random() < 0.1,
                    'queue': rng.choice(['250', '250', '250', '451', '550', '452r'])}
+            cfg['tls'] = transport == 'smtp' and not cfg['ehlo500'] and rng.random() < 0.15
+            cfg['auth'] = cfg['tls'] and rng.random() < 0.5
             if cfg['ehlo500']:
                 cfg.update(pipelining=False, eightbit=False, smtputf8=False, size=None)
             # without SMTPUTF8 a non-ASCII address cannot be sent: the relay must refuse (553), never deliver a changed address
@@ -137,7 +139,8 @@ class RecQueue(object):
         from slimta.queue import QueueError
         from slimta.smtp.reply import Reply
         h, b = envelope.flatten()
-        self.got.append({'sender': envelope.sender, 'rcpts': list(envelope.recipients), 'data': h + b})
+        self.got.append({'sender': envelope.sender, 'rcpts': list(envelope.recipients), 'data': h + b,
+                         'auth': (envelope.client or {}).get('auth')})
         v = self.verdict
         if v == '250':
             return [(envelope, 'id%d' % len(self.got))]
@@ -227,7 +230,14 @@ def run_hop_smtp(case, model):
                 reply.code = '500'
                 reply.message = '5.5.1 EHLO not spoken here'
     esmtp.Server = CfgServer
-    edge = SmtpEdge(None, q, max_size=cfg['size'], validator_class=V, hostname='edge.example')
+    tls_kw, relay_kw = {}, {}
+    if cfg.get('tls'):
+        from harness.props.c14 import tls_context, client_tls_context
+        tls_kw = {'context': tls_context(), 'auth': bool(cfg.get('auth'))}
+        relay_kw = {'context': client_tls_context()}
+        if cfg.get('auth'):
+            relay_kw['credentials'] = ('user', 'secret')
+    edge = SmtpEdge(None, q, max_size=cfg['size'], validator_class=V, hostname='edge.example', **tls_kw)
 
     def creator(address):
         a, b = socket.socketpair()
@@ -236,7 +246,7 @@ def run_hop_smtp(case, model):
         gevent.spawn(edge.handle, tap, ('127.0.0.1', 40000))
         return a
     relay = StaticSmtpRelay('edge.example', 25, socket_creator=creator, ehlo_as='relay.example', idle_timeout=0.5,
-                            command_timeout=3, data_timeout=3)
+                            command_timeout=3, data_timeout=3, **relay_kw)
     orig_add = relay.add_client
 
     def add_client():
@@ -519,8 +529,15 @@ def run_hop(case, model):
             seen = dict((k, (str(v) if v is not None else None)) for k, v in clients[0].client.extensions.extensions.items())
             if offered != seen:
                 hits.append(hit('c06.extensions-differ', 'the client does not see exactly the extensions the server advertised', observed=seen, expected=offered))
-        # command lines on the wire vs the model
-        wire = b''.join(t.inbound for t in taps)
+        # after STARTTLS the client must have seen the extensions of the second EHLO, and the session must be encrypted / authenticated
+        if cfg.get('tls') and servers:
+            if not servers[0].encrypted:
+                hits.append(hit('c06.tls-offered-but-not-used', 'the relay did not start TLS although the edge offered it', observed=False))
+            if cfg.get('auth') and q.got and not all(g.get('auth') for g in q.got):
+                hits.append(hit('c06.credentials-not-presented', 'the message arrived without the authentication the relay was configured with',
+                                observed=[g.get('auth') for g in q.got][:3]))
+        # command lines on the wire vs the model (clear-text sessions only: under TLS the tap sees ciphertext)
+        wire = b''.join(t.inbound for t in taps) if not cfg.get('tls') else b''
         lines = [l + b'\n' for l in wire.split(b'\n') if l[:4].upper() in (b'MAIL', b'RCPT')]
         want_lines = []
         for s, m in zip(sent, case['msgs']):
@@ -534,7 +551,7 @@ def run_hop(case, model):
             want_lines.append(bytes.fromhex(ml) + b'\r\n')
             for r in s['rcpts']:
                 want_lines.append(bytes.fromhex(model.ask('wire rcpt %s' % (r.encode(enc).hex() or '-'))) + b'\r\n')
-        if lines != want_lines and mismatch is None and not hits:
+        if lines != want_lines and mismatch is None and not hits and not cfg.get('tls'):
             mismatch = {'op': 'wire mail/rcpt', 'impl': [l.decode('latin-1') for l in lines[:4]], 'model': [l.decode('latin-1') for l in want_lines[:4]]}
         # the whole transaction on the wire (MAIL .. end-of-data line) vs the model's hopBytes, the byte string
         # hop_delivers / session_delivers are stated about; parts = what the relay client handed to Client.send_data
@@ -545,7 +562,7 @@ def run_hop(case, model):
                 enc_msgs.append((s['sender'].encode(enc), [r.encode(enc) for r in s['rcpts']]))
             except UnicodeError:
                 pass
-        if len(enc_msgs) == len(q.handed) and mismatch is None and not hits:
+        if len(enc_msgs) == len(q.handed) and mismatch is None and not hits and not cfg.get('tls'):
             pos = 0
             for (snd, rcs), parts in zip(enc_msgs, q.handed):
                 p0 = wire.find(b'MAIL FROM:', pos)
@@ -588,6 +605,8 @@ def run_hop(case, model):
     tags = ['hop-' + tr, 'queue=' + cfg['queue'], 'msgs=%d' % len(case['msgs']), 'pipelining' if cfg['pipelining'] else 'no-pipelining']
     if case.get('_hopcmp'):
         tags.append('wire-hop-compared')
+    if cfg.get('tls'):
+        tags.append('starttls+auth' if cfg.get('auth') else 'starttls')
     if cfg['ehlo500']:
         tags.append('helo-fallback')
     if any(not all(ord(ch) < 128 for ch in s['sender'] + ''.join(s['rcpts'])) for s in sent):
